@@ -227,8 +227,13 @@ pub fn corpus(report: &mut Report) {
     }
 }
 
-pub fn check(tier: Tier, seed: u64) -> i32 {
-    let mut rep = Report::new(PROP, tier, seed);
+pub struct Ctx {
+    pub pools: Pools,
+    pub runs: u64,
+    pub per_run: usize,
+}
+
+pub fn context(tier: Tier, seed: u64) -> Result<Ctx, String> {
     let w = report::workers();
     let (runs, per_run, k512, k1024) = match tier {
         Tier::Quick => (500u64, 2000usize, 12, 4),
@@ -236,12 +241,32 @@ pub fn check(tier: Tier, seed: u64) -> i32 {
     };
     let pools = Pools::build(report::run_seed(seed, "pool", 0), k512, k1024, 6, w);
     if !pools.usable() {
-        eprintln!("HARNESS-ERROR: key pool could not be built (keygen/sign failed on the current tree): {:?} {:?}",
-            pools.p512.failures.first().map(|f| &f.1), pools.p1024.failures.first().map(|f| &f.1));
-        return 2;
+        return Err(format!(
+            "key pool could not be built (keygen/sign failed on the current tree): {:?} {:?}",
+            pools.p512.failures.first().map(|f| &f.1),
+            pools.p1024.failures.first().map(|f| &f.1)
+        ));
     }
+    Ok(Ctx { pools, runs, per_run })
+}
+
+pub fn rerun(tier: Tier, seed: u64, run: u64) -> Option<RunOutcome> {
+    let ctx = context(tier, seed).ok()?;
+    Some(one_run(seed, run, &ctx.pools, ctx.per_run))
+}
+
+pub fn check(tier: Tier, seed: u64) -> i32 {
+    let mut rep = Report::new(PROP, tier, seed);
+    let w = report::workers();
+    let ctx = match context(tier, seed) {
+        Ok(c) => c,
+        Err(e) => {
+            eprintln!("HARNESS-ERROR: {}", e);
+            return 2;
+        }
+    };
     corpus(&mut rep);
-    let out = report::parallel_runs(runs, w, |run| one_run(seed, run, &pools, per_run));
+    let out = report::parallel_runs(ctx.runs, w, |run| one_run(seed, run, &ctx.pools, ctx.per_run));
     rep.absorb(out);
     rep.rule = "a case is one delivery (bytes handed to a decoder, or a (msg, sig, pk) triple handed to from_bytes+verify) produced by the seeded channel/disk fault catalogue or the Byzantine encoders from pristine encodings of the per-invocation key pool; non-trivial = it got past the frame checks (decoded, rejected at field level, or reached verify); distinct = distinct delivered bytes".into();
     rep.assumptions = vec![
